@@ -473,6 +473,22 @@ func c54Exec(ctx *vk.Ctx, c c54Case) error {
 		}
 	}
 	ctx.ClassIf(keptUsed, "used-import-kept")
+	// imports whose name only the path convention can tell (unknown to the
+	// resolver, not renamed) and whose path ends in a version element
+	for _, im := range in.Imports {
+		if im.Name != "" || resolver.ResolvePath(im.Path) != nil {
+			continue
+		}
+		if i := strings.LastIndex(im.Path, "/"); i >= 0 && c54IsVersionElem(im.Path[i+1:]) {
+			if _, u := used[effName(im)]; u && outSet[im] > 0 {
+				ctx.Class("unresolved-versioned-import:used-kept")
+			} else if !u && outSet[im] == 0 {
+				ctx.Class("unresolved-versioned-import:unused-pruned")
+			} else {
+				ctx.Class("unresolved-versioned-import:other")
+			}
+		}
+	}
 	for _, im := range in.Imports {
 		if im.Name == "_" {
 			ctx.Class("blank-import")
@@ -538,7 +554,8 @@ func c54Clip(s string) string {
 	return s
 }
 
-const c54Rule = "generated: rapid draws a Gno program from a grammar of declarations/statements/expressions/types with an import block over a 12-package universe " +
+const c54Rule = "generated: rapid draws a Gno program from a grammar of declarations/statements/expressions/types with an import block over 10 packages the in-memory resolver knows " +
+	"plus 6 packages the resolver does not know, three of them with a path ending in a version element /vN (named by the element before it, Gno's package-name rule) and one whose last element only looks like a version " +
 	"(each package absent / imported+used / imported unused / used but missing / aliased / blank; two packages share a name, two have a path whose last element is not the name; grouped, ungrouped and several import declarations; comments on kept specs of a single declaration), " +
 	"then re-emits the token stream with drawn whitespace, blank lines, line breaks wherever no semicolon is inserted, explicit semicolons, trailing line comments at statement ends and own-line (line, block, multi-line) comments between statements; formatted with FormatImportFromSource, FormatSource, or FormatPackageFile (two-file package whose second file declares names that shadow package names) against an in-memory resolver. " +
 	"corpus: every .gno file under examples/ and gnovm/tests/files that parses, routed like `gno fmt` (FormatFile for package directories, FormatSource for filetests expecting an error, FormatImportFromSource otherwise) with the stdlibs+examples resolver. " +
